@@ -8,6 +8,7 @@ import (
 	"io"
 	"os"
 	"path/filepath"
+	"strings"
 
 	"github.com/go-openapi/spec"
 	"github.com/go-swagger/go-swagger/cmd/swagger/commands/diff"
@@ -87,11 +88,18 @@ func VerifC15Execute() {
 			ign = append(ign, diffs[i])
 		}
 	}
+	// the destination may already hold an older, longer report
+	const oldReport = "OLD REPORT: a long list of differences of a previous run ... END-OF-OLD-REPORT"
+	stale := vBool2("destinationExists")
 	var runErr error
+	report := ""
 	if vSymbolic() {
 		vFSInit()
 		vFSDir("/out")
 		c.Destination = "/out/report"
+		if stale {
+			vFSFile("/out/report", oldReport)
+		}
 		c.IgnoreFile = "ignore.json"
 		vStubReturn(vDiffCmd+"getDiffs", diffs, nil)
 		vStubReturn(vDiffCmd+"readIgnores", ign, nil)
@@ -99,6 +107,7 @@ func VerifC15Execute() {
 		vStubReturn("github.com/go-swagger/go-swagger/cmd/swagger/commands/diff.JSONMarshal", []byte("[]"), nil)
 		vStubReturn("github.com/go-swagger/go-swagger/cmd/swagger/commands/diff.prettyprint", io.ReadWriter(&bytes.Buffer{}), nil)
 		runErr = c.Execute(nil)
+		report, _ = vFSRead("/out/report")
 	} else {
 		dir, derr := os.MkdirTemp("", "verifc15")
 		if derr != nil {
@@ -119,8 +128,14 @@ func VerifC15Execute() {
 		c.Args.OldSpec, c.Args.NewSpec = w("old.json", s1), w("new.json", s2)
 		c.IgnoreFile = w("ignore.json", ign)
 		c.Destination = filepath.Join(dir, "report")
+		if stale {
+			_ = os.WriteFile(c.Destination, []byte(oldReport), 0o600)
+		}
 		runErr = c.Execute(nil)
+		b, _ := os.ReadFile(c.Destination)
+		report = string(b)
 	}
+	vAssert(!strings.Contains(report, "END-OF-OLD-REPORT"), "the report file still holds the tail of an older report")
 	vCover("executed")
 	want := false
 	for i := 0; i < n; i++ {
